@@ -800,7 +800,8 @@ def _parse_source_for_lambda(
     if start_token.string == "def":
         # An indented function is parsed inside a dummy block: cutting the indent off every
         # line would also cut into multi-line string literals.
-        function_source = inspect.getsource(ast_source)
+        # The source of the code that runs - a decorated function is not the function it wraps.
+        function_source = inspect.getsource(getattr(ast_source, "__code__", ast_source))
         if function_source[:1].isspace():
             a_module = ast.parse("if True:\n" + function_source)
             f_def = a_module.body[0].body[0]  # type: ignore
